@@ -11,6 +11,7 @@ func corpusEnums() []*modSpec {
 	}
 	return []*modSpec{
 		mk("enum-dup-values", "package models\n\ntype Color uint8\n\nconst (\n\tRed Color = 0\n\tGreen Color = 1\n\tBlue Color = 1\n)\n\ntype S struct{ C Color }\n"),
+		mk("enum-dup-and-gap", "package models\n\ntype Level int\n\nconst (\n\tLow Level = 0\n\tDefault Level = 0\n\tHigh Level = 2\n)\n\ntype Mode uint8\n\nconst (\n\tM0 Mode = 0\n\tM1 Mode = 1\n\tM1b Mode = 1\n\tM4 Mode = 4\n\tM4b Mode = 4\n)\n\ntype Gap int\n\nconst (\n\tG0 Gap = 0\n\tG2 Gap = 2\n)\n\ntype S struct {\n\tL Level\n\tM Mode\n\tG Gap\n}\n"),
 		mk("enum-multi-name", "package models\n\ntype K int\n\nconst KA, KB K = 0, 1\n\ntype S struct{ V K }\n"),
 		mk("enum-unexported-between", "package models\n\ntype E int\n\nconst (\n\tRed E = 0\n\tGreen E = 1\n\tdup E = 0\n)\n\ntype S struct{ V E }\n"),
 		mk("enum-iota-block", "package models\n\ntype E int\n\nconst (\n\tA E = iota // first\n\tB // second\n\tC\n)\n\ntype S struct{ V E }\n"),
